@@ -562,7 +562,18 @@ Section WithV6.
     | AOther => Ok None
     end.
 
-  Definition from_api (x : api_attr) : res (option attr) :=
+  (* the last step of attr_from_api: a value longer than an attribute can carry is refused *)
+  Definition len_check (r : option attr) : res (option attr) :=
+    match r with
+    | Some a =>
+        match a_data a with
+        | DVal _ => Ok (Some a)
+        | DBin b | DOpaque b => if 65535 <? N.of_nat (length b) then Ok None else Ok (Some a)
+        end
+    | None => Ok None
+    end.
+
+  Definition from_api_unchecked (x : api_attr) : res (option attr) :=
     match x with
     | AMissing => Ok None
     | AUnknown flags ty value =>
@@ -570,7 +581,7 @@ Section WithV6.
         else
           match canonical_flags ty with
           | Some f =>
-              if 65535 <? N.of_nat (length value) then Ok None
+              if 65535 <? N.of_nat (length value) then Ok None   (* u16::try_from(value.len()) *)
               else if (ty =? NEXTHOP) && negb (Nat.eqb (length value) 4 || Nat.eqb (length value) 16)
               then Ok None
               else Ok (decode_value ty f value)
@@ -618,6 +629,12 @@ Section WithV6.
         Ok (new_with_bin LARGE_COMMUNITY
               (flat_map (fun t => be32 (fst (fst t)) ++ be32 (snd (fst t)) ++ be32 (snd t)) l))
     | AOther => Ok None
+    end.
+
+  Definition from_api (x : api_attr) : res (option attr) :=
+    match from_api_unchecked x with
+    | Ok r => len_check r
+    | Panic t => Panic t
     end.
 
   (* the round trip the property speaks of *)
